@@ -622,6 +622,15 @@ func (w *World) Restart(p *Proc) {
 	w.end(ev)
 }
 
+// Restart0 closes a process and reopens it with the SAME policy (cold caches).
+func (w *World) Restart0(p *Proc) {
+	ev := w.begin("restart", p, nil, "")
+	w.closeProc(p)
+	p.Gen++
+	w.startProc(p)
+	w.end(ev)
+}
+
 // Advance moves the virtual clock.
 func (w *World) Advance(d time.Duration) {
 	ev := w.begin("advance", nil, nil, "")
